@@ -25,6 +25,9 @@ ID = "C01"
 LEVEL = "exploration"
 DESIGN_REF = "DESIGN.md#C01"
 TECHNIQUE = "runtime monitoring: generated spellings of known values read through the real parsers; reference-value oracle; fillbuf state recorder"
+LEVEL_TEXT = (
+    "Exploration: each run reads some 10^4 (quick) to 10^5-10^6 (thorough) generated conformant spellings of known values through the three real parser boundaries at a fixed set of buffer sizes plus sizes that split a multi-byte construct, and compares with the generated value type-exactly; a recorder on fillbuf shows that all 13 scanner states were refilled at every boundary. This is the right level because the property quantifies over an unbounded language of spellings: no enumeration is possible, but every lexical rule is an individually taggable generator feature, so coverage of the rules (not of the inputs) is what the evidence reports. Held on what was generated; one listed finding (odd-length hex strings, pinned by the repository's own test)."
+)
 RULE = (
     "random object trees (null, bool, int incl. +-2^31, reals as decimal text, names over bytes 1-255, strings over all "
     "bytes, arrays, dicts, n g R; depth<=6 quick / <=40 thorough + one deep chain) x random conformant spellings "
